@@ -1,8 +1,11 @@
-/- Driver for C20 (chunk GC): model recomputation (DIFF) + the C20 judges gc_safe / gc_complete (SPECFAIL). -/
+/- Driver for C20 (chunk GC): model recomputation (DIFF) + the C20 judges gc_safe / gc_complete (SPECFAIL);
+   the `hput` / `happend` lines of the harness's HTTP family go through `SwV.Spec.C20Http`. -/
 import SwV.Common.Drv
 import SwV.Model.C18
+import SwV.Model.C20Http
 import SwV.Spec.C18Run
 import SwV.Spec.C20
+import SwV.Spec.C20Http
 open SwV.Drv SwV.Model.C18 SwV.Spec.C18Run
 
-def main : IO Unit := run { init := ({} : St), step := drvStep SwV.Spec.C20.judge }
+def main : IO Unit := run { init := ({} : SwV.Model.C20Http.HSt), step := SwV.Spec.C20Http.drvStepH }
